@@ -1293,6 +1293,153 @@ def translate_eig3d_degenerate(methods, fname):
     return out
 
 
+def translate_assembly3d(methods, fname, repo):
+    """3-D branch of __Spectral_Decomposition: index maps, Kelvin-Mandel scale table, the gathered
+    products defining G_ab, theta_ab, and the 3-D Kelvin-Mandel packing."""
+    fn = methods["__Spectral_Decomposition"]
+    use_aliases(fn)
+    blk = find_if(fn.body, "dim == 2", fname)
+    if len(blk.orelse) != 1 or not isinstance(blk.orelse[0], ast.If) or _norm(ast.unparse(blk.orelse[0].test)) != "dim==3":
+        raise TranslateError("%s: 3-D branch of __Spectral_Decomposition not found" % fname)
+    b3 = blk.orelse[0].body
+    out = {}
+
+    def val(t):
+        return find_assign(b3, t, fname).value
+
+    def same(t, want):
+        a = find_assign(b3, t, fname)
+        if _vtxt(a.value) != _norm(want):
+            raise TranslateError("%s:%d: %s is not %s" % (fname, a.lineno, t, want))
+
+    for t, w in (("(m1, m2, m3)", "list_m"), ("(M1, M2, M3)", "list_M"), ("coef", "np.sqrt(2)"), ("thetap", "dvalp / 2"),
+                 ("m_all", "np.stack([m1, m2, m3])"), ("mxm", "m_all[..., :, np.newaxis] * m_all[..., np.newaxis, :]"),
+                 ("dvalp_w", "np.moveaxis(dvalp, -1, 0)[..., None, None]"), ("diag_sum", "(mxm * dvalp_w).sum(axis=0)"),
+                 ("thetap_w", "np.moveaxis(thetap, -1, 0)[..., None, None]"), ("G_sum", "(G_all * thetap_w).sum(axis=0)"),
+                 ("projP", "FeArray.asfearray(diag_sum + G_sum)"), ("projM", "np.eye(6) - projP"), ("_km_scale", "np.ones((6, 6))")):
+        same(t, w)
+    # index maps
+    for nm in ("_rI", "_rJ"):
+        v = val(nm)
+        if not (isinstance(v, ast.Call) and ast.unparse(v.func) == "np.array" and len(v.args) == 1):
+            raise TranslateError("%s:%d: %s is not np.array([...])" % (fname, v.lineno, nm))
+        lst = ast.literal_eval(v.args[0])
+        if not (isinstance(lst, list) and len(lst) == 6 and all(isinstance(x, int) and 0 <= x < 3 for x in lst)):
+            raise TranslateError("%s:%d: %s is not a list of six indices in 0..2" % (fname, v.lineno, nm))
+        out[nm] = lst
+    # scale table: slice assignments with constant bounds, in source order
+    tab = [["1"] * 6 for _ in range(6)]
+    for st in b3:
+        if isinstance(st, ast.Assign) and isinstance(st.targets[0], ast.Subscript) and ast.unparse(st.targets[0].value) == "_km_scale":
+            sl = st.targets[0].slice
+            if not (isinstance(sl, ast.Tuple) and len(sl.elts) == 2 and all(isinstance(e, ast.Slice) and e.step is None for e in sl.elts)):
+                raise TranslateError("%s:%d: unsupported _km_scale assignment" % (fname, st.lineno))
+            rng = []
+            for e in sl.elts:
+                lo = ast.literal_eval(e.lower) if e.lower is not None else 0
+                hi = ast.literal_eval(e.upper) if e.upper is not None else 6
+                if not (isinstance(lo, int) and isinstance(hi, int) and 0 <= lo <= hi <= 6):
+                    raise TranslateError("%s:%d: _km_scale slice bounds" % (fname, st.lineno))
+                rng.append(range(lo, hi))
+            vt = _vtxt(st.value)
+            if vt in (_norm("coef"), _norm("np.sqrt(2)")):
+                v = "r2"
+            elif vt in ("2", "2.0"):
+                v = "2"
+            elif vt in ("1", "1.0"):
+                v = "1"
+            else:
+                raise TranslateError("%s:%d: unsupported _km_scale value %s" % (fname, st.lineno, vt))
+            for i in rng[0]:
+                for j in rng[1]:
+                    tab[i][j] = v
+    out["scale"] = tab
+    # stacks of projector pairs
+    pairs = []
+    for nm in ("Ma", "Mb"):
+        v = val(nm)
+        if not (isinstance(v, ast.Call) and ast.unparse(v.func) == "np.stack" and len(v.args) == 1 and isinstance(v.args[0], ast.List)):
+            raise TranslateError("%s:%d: %s is not np.stack([...])" % (fname, v.lineno, nm))
+        names = [ast.unparse(e) for e in v.args[0].elts]
+        if len(names) != 3 or any(n not in ("M1", "M2", "M3") for n in names):
+            raise TranslateError("%s:%d: %s stacks %s" % (fname, v.lineno, nm, names))
+        pairs.append([int(n[1]) - 1 for n in names])
+    out["pairs"] = list(zip(pairs[0], pairs[1]))
+    # gathers  X[..., _rP[:, None], _rQ[None, :]]  ->  entry (I, J) = X[rP[I], rQ[J]]
+    gathers = {}
+    for st in b3:
+        if isinstance(st, ast.Assign) and isinstance(st.targets[0], ast.Name) and isinstance(st.value, ast.Subscript) \
+                and ast.unparse(st.value.value) in ("Ma", "Mb"):
+            sl = st.value.slice
+            ok = isinstance(sl, ast.Tuple) and len(sl.elts) == 3 and isinstance(sl.elts[0], ast.Constant) and sl.elts[0].value is Ellipsis
+            if ok:
+                r, c = _norm(ast.unparse(sl.elts[1])), _norm(ast.unparse(sl.elts[2]))
+                mr = re.fullmatch(r"(_r[IJ])\[:,None\]", r)
+                mc = re.fullmatch(r"(_r[IJ])\[None,:\]", c)
+                ok = bool(mr and mc)
+            if not ok:
+                raise TranslateError("%s:%d: unsupported gather [%s]" % (fname, st.lineno, ast.unparse(st.value)))
+            gathers[st.targets[0].id] = ("A" if ast.unparse(st.value.value) == "Ma" else "B", mr.group(1)[1:], mc.group(1)[1:])
+
+    def gev(n):
+        if isinstance(n, ast.Name) and n.id in gathers:
+            m, r, c = gathers[n.id]
+            return "%s (p3_%s I) (p3_%s J)" % (m, r, c)
+        if isinstance(n, ast.Call) and isinstance(n.func, ast.Attribute) and n.func.attr == "swapaxes" \
+                and [_norm(ast.unparse(a)) for a in n.args] == ["-2", "-1"] and isinstance(n.func.value, ast.Name) and n.func.value.id in gathers:
+            m, r, c = gathers[n.func.value.id]
+            return "%s (p3_%s J) (p3_%s I)" % (m, r, c)
+        if isinstance(n, ast.Name) and n.id == "_km_scale":
+            return "p3_scale r2 I J"
+        if isinstance(n, ast.Name) and n.id in _CUR_ALIASES:
+            return gev(_CUR_ALIASES[n.id])
+        if isinstance(n, ast.BinOp) and isinstance(n.op, (ast.Add, ast.Mult)):
+            return "(%s %s %s)" % (gev(n.left), "+" if isinstance(n.op, ast.Add) else "*", gev(n.right))
+        raise TranslateError("%s:%d: unsupported expression in G_all [%s]" % (fname, getattr(n, "lineno", 0), ast.unparse(n)[:80]))
+    out["G"] = gev(val("G_all"))
+    # theta_ab and the guarded differences, in the order of the stacked pairs
+    thetas = []
+    for k, (a, b) in enumerate(out["pairs"]):
+        dvn = "v%d_m_v%d" % (a + 1, b + 1)
+        d = Scalar({"val_e_pg[..., %d]" % a: ('s', 'la'), "val_e_pg[..., %d]" % b: ('s', 'lb')}, fname).ev(val(dvn))
+        g = find_assign(b3, "%s[%s == 0]" % (dvn, dvn), fname)
+        if _vtxt(g.value) != "1":
+            raise TranslateError("%s:%d: zero-divisor guard of %s changed" % (fname, g.lineno, dvn))
+        t = Scalar({"valp[..., %d]" % a: ('s', 'vpa'), "valp[..., %d]" % b: ('s', 'vpb'), dvn: ('s', 'dv')}, fname).ev(val("thetap[..., %d]" % k))
+        thetas.append((sc_coq(d), sc_coq(t)))
+    if len(set(thetas)) != 1:
+        raise TranslateError("%s: the three theta_ab formulas differ: %s" % (fname, thetas))
+    out["dv"], out["theta"] = thetas[0]
+    okt = {"(m1, m2, m3)", "(M1, M2, M3)", "coef", "thetap", "m_all", "mxm", "dvalp_w", "diag_sum", "thetap_w", "G_sum", "projP", "projM",
+           "_km_scale", "_rI", "_rJ", "Ma", "Mb", "G_all"} | set(gathers)
+    for st in b3:
+        if is_alias_stmt(st):
+            continue
+        if isinstance(st, ast.Assign):
+            t = ast.unparse(st.targets[0])
+            if t in okt or re.fullmatch(r"v\d_m_v\d(\[v\d_m_v\d == 0\])?", t) or re.fullmatch(r"thetap\[\.\.\., \d\]", t) or t.startswith("_km_scale["):
+                continue
+            raise TranslateError("%s:%d: unexpected assignment in the 3-D projector assembly [%s]" % (fname, st.lineno, t))
+        if not (isinstance(st, ast.Expr) and isinstance(st.value, ast.Call) and ast.unparse(st.value.func) == "tic.Tac"):
+            raise TranslateError("%s:%d: unexpected statement in the 3-D projector assembly" % (fname, st.lineno))
+    fe = methods["_Eigen_values_vectors_projectors"]
+    if list_under_dim(fe, "list_M", 3, fname) != ["M1", "M2", "M3"] or \
+            list_under_dim(fe, "list_m", 3, fname) != [_norm("Project_matrix_to_vector(M%d)" % k) for k in (1, 2, 3)]:
+        raise TranslateError("%s: in 3-D list_M / list_m are not [M1, M2, M3] / their Kelvin-Mandel packings" % fname)
+    # 3-D Kelvin-Mandel packing
+    upath = os.path.join(repo, "EasyFEA", "Models", "_utils.py")
+    tree = ast.parse(open(upath).read())
+    pf = [f for f in tree.body if isinstance(f, ast.FunctionDef) and f.name == "Project_matrix_to_vector"][0]
+    use_aliases(pf)
+    tabm = {"coef": ('s', 'r2')}
+    for i in range(3):
+        for j in range(3):
+            tabm["matrix[..., %d, %d]" % (i, j)] = ('s', "(M %d%%nat %d%%nat)" % (i, j))
+    sc = Scalar(tabm, "Models/_utils.py")
+    out["km3"] = [sc_coq(sc.ev(find_assign(pf.body, "vector[..., %d]" % k, "Models/_utils.py", nth=(1 if k < 3 else 0)).value)) for k in range(6)]
+    return out
+
+
 def translate_sources(methods, fname):
     out = {}
     for meth, var in (("Get_r_e_pg", "r"), ("Get_f_e_pg", "f")):
@@ -1432,6 +1579,7 @@ def translate(repo):
            "eig3d": translate_eig3d(methods, fname),
            "asm2d": translate_assembly2d(methods, fname, repo),
            "deg3d": translate_eig3d_degenerate(methods, fname),
+           "asm3d": translate_assembly3d(methods, fname, repo),
            "sources": translate_sources(methods, fname),
            "history": translate_history(os.path.join(repo, "EasyFEA", "Simulations", "_phasefield.py"))}
     return res
@@ -1442,7 +1590,7 @@ def emit_coq(res):
     w = L.append
     w("(* GENERATED by translator/splits.py from EasyFEA/Models/_phasefield.py and")
     w("   EasyFEA/Simulations/_phasefield.py - do not edit. *)")
-    w("From Coq Require Import Reals.")
+    w("From Coq Require Import Reals List.")
     w("From EFLib Require Import C17_MatAlg.")
     w("Local Open Scope R_scope.")
     w("")
@@ -1502,6 +1650,19 @@ def emit_coq(res):
     w("(* Kelvin-Mandel packing of a symmetric 2x2 matrix (Project_matrix_to_vector), r2 = coef = sqrt 2 *)")
     for k in range(3):
         w("Definition km2_%d (m11 m22 m12 r2 : R) : R := %s." % (k, sc_coq(a2["km"][k])))
+    w("")
+    a3 = res["asm3d"]
+    w("(* 3-D assembly of projP: index maps of the Kelvin-Mandel components, scale table, entry (I,J) of G_ab built from")
+    w("   the projectors A = M_a, B = M_b (functions of two indices), theta_ab, 3-D Kelvin-Mandel packing *)")
+    w("Definition p3_rI (I : nat) : nat := nth I (%s) 0%%nat." % " :: ".join("%d%%nat" % x for x in a3["_rI"]) .join(["", " :: nil"]))
+    w("Definition p3_rJ (I : nat) : nat := nth I (%s) 0%%nat." % " :: ".join("%d%%nat" % x for x in a3["_rJ"]).join(["", " :: nil"]))
+    rows = ["(%s :: nil)" % " :: ".join(r) for r in a3["scale"]]
+    w("Definition p3_scale (r2 : R) (I J : nat) : R := nth J (nth I (%s :: nil) nil) 0." % " :: ".join(rows))
+    w("Definition p3_G (A B : nat -> nat -> R) (r2 : R) (I J : nat) : R := %s." % a3["G"])
+    w("Definition p3_pairs : list (nat * nat) := %s :: nil." % " :: ".join("(%d%%nat, %d%%nat)" % p for p in a3["pairs"]))
+    w("Definition p3_dv (la lb : R) : R := if Req_EM_T %s 0 then 1 else %s." % (a3["dv"], a3["dv"]))
+    w("Definition p3_theta (vpa vpb dv : R) : R := %s." % a3["theta"])
+    w("Definition km3 (M : nat -> nat -> R) (r2 : R) (I : nat) : R := nth I (%s :: nil) 0." % " :: ".join(a3["km3"]))
     w("")
     e = res["eig3d"]
     w("Section Sylvester3.")
